@@ -61,7 +61,11 @@ class AdditionalRows(Contract):
             c.v["CNT"] = CNT
         else:
             hdrs = None
-        doc = c.alloc(RecObj("RTFDocument", {"rtf_body": body, "rtf_column_header": hdrs, "rtf_footnote": fn, "rtf_source": src}, fresh=False))
+        # every field a reservation rule might consult is present (so that a changed rule is judged by the ensures, not by a missing attribute)
+        rpage = c.alloc(RecObj("RTFPage", {"page_title": c.fresh("page_title", T.Str), "page_footnote": c.fresh("page_footnote", T.Str),
+                                           "page_source": c.fresh("page_source", T.Str), "nrow": c.fresh("nrow", T.Int)}, fresh=False))
+        doc = c.alloc(RecObj("RTFDocument", {"rtf_body": body, "rtf_column_header": hdrs, "rtf_footnote": fn, "rtf_source": src, "rtf_page": rpage,
+                                             "rtf_title": None, "rtf_subline": None}, fresh=False))
         c.bind("document", doc)
         has = lambda isn, txt: And(Not(isn), Not(txt.isnone), c.obj(txt.payload).length > 0)
         c.v.update(sub=sub, fn=has(fn_none, fn_txt), src=has(src_none, src_txt))
